@@ -75,4 +75,28 @@ theorem readFF_declared_once_in_order (raw : List String) (d : Dump)
       d.mods = dictOfList ((modSpec (ffParams C13.Gen.natoms ffTab) [] none 0 lines').map (fun b => (b.2.name, b))) :=
   C13.readFF_declared_once_in_order raw d h
 
+/-- **Removal sections exist in links only**: every registered section whose name starts with `!` lies
+under `[ link ]` and is handled with `context_type='link'`.  Hence `_base_parser` is never called with
+`delete=True` outside a link: its guard "Interactions can only be removed in links" (ffinput.py) cannot
+be reached from any file (the component stream calls it directly). -/
+theorem delete_sections_only_in_links :
+    (ffTab.all fun e =>
+      !((e.path.getLast?.map fun n => n.toList.head? == some '!').getD false) ||
+        (e.ctype == "link" && e.path.head? == some "link")) = true := by
+  decide +kernel
+
+/-- every entry of `ITPDirector.atom_idxs` is an index or a slice (kinds 0, 1, 2 of the extraction), so the
+`else: raise IOError` branch of `_split_atoms_and_parameters` cannot be reached from any file -/
+theorem itp_idx_kinds_known :
+    (C13.Gen.itpAtomIdxs.all fun e => e.2.all fun k => decide (k.1 ≤ 2)) = true := by
+  decide +kernel
+
+/-- an interaction line of an `.itp` block can refer to atoms by index only: a reference that is not all
+digits is rejected whatever the block contains (the nodes of an ITP block are integers, so the test
+`reference not in context` of `ITPDirector._treat_block_interaction_atoms` always fires and the prefix test
+after it is dead code) -/
+theorem itp_name_reference_rejected (c : Ctx) (ref : String) (h : allDigits ref = false) :
+    itpRef c ref = none := by
+  simp [itpRef, h]
+
 end C13.Tables
